@@ -826,7 +826,7 @@ def special_c07(res, tier, seed, workdir, stats):
 
 CORE_LEAN = os.path.join(hh.LEAN, "HH", "Generated", "PortableCore.lean")
 CORE_THMS = {"module_reduction": ["moduleReduction_eq"], "permute": ["permute_eq"], "zipper_merge_and_add": ["zipperPair_eq"],
-             "update": ["update_eq"], "new": ["newState_eq"], "finalize64": ["out64_eq", "finalize64_shape"],
+             "update": ["update_eq"], "update_lanes": ["updateLanes_eq"], "new": ["newState_eq"], "finalize64": ["out64_eq", "finalize64_shape"],
              "finalize128": ["out128_eq", "finalize128_shape"], "finalize256": ["out256_eq", "finalize256_shape"]}
 
 
